@@ -121,6 +121,44 @@ def handle_sites(fn):
     return out
 
 
+_cof_cache = {}
+
+
+def _closes_on_false(caller, callee, idx, nargs):
+    """the file-local helper `callee` closes its idx-th parameter (fclose) on every path that returns false and on no path that returns
+    true - decided on the helper's CFG (a closing call dominates the false returns; no closing call reaches a true return)"""
+    ck = (caller.file, callee, idx)
+    if ck in _cof_cache:
+        return _cof_cache[ck]
+    res = False
+    db = getattr(caller, 'db', None)
+    hs = [h for h in (db.by_qn.get(callee, []) if db is not None else []) if h.body is not None and h.rec is None and h.file == caller.file and len(h.params) == nargs]
+    if len(hs) == 1:
+        h = hs[0]
+        pk = 'v%d:%s' % (h.params[idx]['d'], h.params[idx]['n'])
+        g = h.cfg
+        closes = [c for c in h.walk() if c.k == 'CallExpr' and c.callee in CLOSERS and c.args and lvalue_key(_strip_casts(c.args[0])) == pk]
+        rets = [r for r in h.walk() if r.k == 'ReturnStmt' and r.child('value') is not None]
+
+        def lit(r):
+            v = _strip_casts(r.child('value'))
+            return bool(v.v) if v is not None and v.k == 'CXXBoolLiteralExpr' else None
+        if closes and rets and all(lit(r) is not None for r in rets):
+            ok = True
+            for r in rets:
+                wr = g.where_node(r)
+                if lit(r) is False:
+                    ok = ok and any(g.node_dominates(c, r) for c in closes)
+                else:
+                    for c in closes:
+                        wc = g.where_node(c)
+                        if wc is None or wr is None or g.path_avoiding(wc, lambda b_, i_, nid, wr=wr: (b_, i_) == wr, lambda b_, i_, nid: False) is not None:
+                            ok = False
+            res = ok
+    _cof_cache[ck] = res
+    return res
+
+
 def check_handles(ctx, fn, rule='R-PAIR', returned_owner_ok=True):
     """Every exit edge of fn must not carry an Open handle. Returns number of exit edges checked."""
     g = fn.cfg
@@ -179,6 +217,24 @@ def check_handles(ctx, fn, rule='R-PAIR', returned_owner_ok=True):
                     if not new:
                         return None
                 return frozenset(new)
+            # `if (!helper(stream, ...)) return;` where the file-local helper closes the stream exactly on the paths on which it
+            # returns false (summary computed from the helper's own CFG): on that edge the stream is closed
+            hc = cond
+            neg = False
+            while hc is not None and ((hc.k == 'UnaryOperator' and hc.op == '!') or hc.k in ('ImplicitCastExpr',)):
+                if hc.k == 'UnaryOperator':
+                    neg = not neg
+                hc = hc.child('sub')
+            if hc is not None and hc.k == 'CallExpr' and hc.callee:
+                idx = next((i_ for i_, a_ in enumerate(hc.args) if lvalue_key(_strip_casts(a_)) == key), None)
+                if idx is not None and _closes_on_false(fn, hc.callee, idx, len(hc.args)):
+                    false_edge = (neg and k == 0) or ((not neg) and k == 1)
+                    if false_edge:
+                        new = set(st)
+                        if 'O' in new:
+                            new.discard('O')
+                            new.add('C')
+                        return frozenset(new)
             if owner and cond is not None and cond.k == 'BinaryOperator' and cond.op == '==':
                 l, r = cond.child('lhs'), cond.child('rhs')
                 if l is not None and r is not None and lvalue_key(l) == owner + '->uses' and r.cv == 0 and k == 1:
